@@ -65,9 +65,10 @@ def make_isa(mn, mac, regs, pre):
 def meta(tier):
     q = tier == 'quick'
     return {
-        'rule': 'vocabularies: thorough: every choice of 1..3 mnemonics, <=2 macros, <=3 registers, <=2 predefined names; quick: two '
-                'categories varied at a time (mnemonics x macros with two register/predefined settings, registers x predefined with two '
-                'mnemonic/macro settings, single mnemonics x macro pairs) '
+        'rule': 'vocabularies: two categories varied at a time (mnemonics x macros with two register/predefined settings, registers x predefined '
+                'with two mnemonic/macro settings, single mnemonics x macro pairs; subset sizes one larger in the thorough tier) with every check; '
+                'thorough: in addition every choice of 1..3 mnemonics, <=2 macros, <=3 registers, <=2 predefined names, judged on well-formedness, '
+                'placeholders and the category patterns; '
                 'from pools built to collide (ld/ldx/l, mov/mov.b, names containing digits and underscores) x {vscode, sublime}; '
                 'checks per generation: every file parses in its format (JSON, YAML, property list / XML, zip integrity), no '
                 '##PLACEHOLDER## survives in any file, each configured word is matched in full by the pattern of its own category '
@@ -185,7 +186,7 @@ def context_checks(tokenize, vocab, target):
     return probs
 
 
-def inspect_vscode(root, vocab):
+def inspect_vscode(root, vocab, context=True):
     mn, mac, regs, pre = vocab
     probs = []
     extdir = os.path.join(root, 'extensions', 'vocab-lang')
@@ -242,11 +243,12 @@ def inspect_vscode(root, vocab):
     for item in rep['operators']['patterns']:
         if item.get('name') == 'keyword.operator.word':
             probs += check_category('expression function', item['match'], FUNCTIONS, [], ci=False)
-    probs += context_checks(lambda line: tmlite.tokenize_textmate(g, line), vocab, 'vscode')
+    if context:
+        probs += context_checks(lambda line: tmlite.tokenize_textmate(g, line), vocab, 'vscode')
     return probs
 
 
-def inspect_sublime(root, vocab):
+def inspect_sublime(root, vocab, context=True):
     import yaml
     mn, mac, regs, pre = vocab
     probs = []
@@ -295,7 +297,8 @@ def inspect_sublime(root, vocab):
                             list(mn) + list(mac) + list(regs), ci=False)
     probs += check_category('directive', ctx['compiler_directives'][0]['match'], ['.' + d for d in COMPILER_DIRECTIVES], [], ci=False)
     probs += check_category('data directive', ctx['data_types_directives'][0]['match'], ['.' + d for d in DATA_DIRECTIVES], [], ci=False)
-    probs += context_checks(lambda line: tmlite.tokenize_sublime(syntax, line), vocab, 'sublime')
+    if context:
+        probs += context_checks(lambda line: tmlite.tokenize_sublime(syntax, line), vocab, 'sublime')
     if syntax.get('file_extensions') != ['vasm']:
         probs.append(f'file_extensions is {syntax.get("file_extensions")!r}, the ISA declares vasm')
     return probs
@@ -333,7 +336,7 @@ def generate_cli(isa, target, root):
     return out
 
 
-def examine(isa, target, vocab, gen, before=None):
+def examine(isa, target, vocab, gen, before=None, context=True):
     """before: an earlier revision of the definition (same language name) generated into the same directory first; the packages
     found there afterwards must be those of `isa`."""
     root = tempfile.mkdtemp(prefix='bespokeverif_c20_', dir='/dev/shm' if os.path.isdir('/dev/shm') else None)
@@ -347,7 +350,7 @@ def examine(isa, target, vocab, gen, before=None):
         except Exception as e:
             return [f'generator failed: {type(e).__name__}: {e}']
         try:
-            return (inspect_vscode if target == 'vscode' else inspect_sublime)(out, vocab)
+            return (inspect_vscode if target == 'vscode' else inspect_sublime)(out, vocab, context)
         except ValueError as e:
             return [str(e)]
     finally:
@@ -357,40 +360,46 @@ def examine(isa, target, vocab, gen, before=None):
 def shard(acc, tier, idx, n):
     q = tier == 'quick'
     ctr = 0
-    if q:
-        # quick tier: the generators fill each category pattern independently, so two categories are varied at a time
-        vocabs = [(mn, mac, regs, pre) for mn in subsets(MNEMONICS, 2, 1) for mac in subsets(MACROS, 1)
-                  for regs in ((), ('a', 'x_1')) for pre in ((), ('KC',))]
-        vocabs += [(mn, mac, regs, pre) for regs in subsets(REGISTERS, 2) for pre in subsets(PREDEFINED, 1)
-                   for mn in (('ld',), ('ld', 'mov.b')) for mac in ((), ('mac',))]
-        vocabs += [(mn, mac, (), ()) for mn in subsets(MNEMONICS, 1, 1) for mac in subsets(MACROS, 2)]
-    else:
-        vocabs = [(mn, mac, regs, pre) for mn in subsets(MNEMONICS, 3, 1) for mac in subsets(MACROS, 2)
-                  for regs in subsets(REGISTERS, 3) for pre in subsets(PREDEFINED, 2)]
+    # the generators fill each category pattern independently, so two categories are varied at a time; these vocabularies get every check,
+    # including whole statement lines through the grammar interpreter and regeneration over an earlier revision
+    k = 0 if q else 1
+    vocabs = [(mn, mac, regs, pre) for mn in subsets(MNEMONICS, 2 + k, 1) for mac in subsets(MACROS, 1 + k)
+              for regs in ((), ('a', 'x_1')) for pre in ((), ('KC',))]
+    vocabs += [(mn, mac, regs, pre) for regs in subsets(REGISTERS, 2 + k) for pre in subsets(PREDEFINED, 1 + k)
+               for mn in (('ld',), ('ld', 'mov.b')) for mac in ((), ('mac',))]
+    vocabs += [(mn, mac, (), ()) for mn in subsets(MNEMONICS, 1, 1) for mac in subsets(MACROS, 2)]
+    full = []
+    if not q:
+        # thorough: the full product as well, judged on well-formedness, placeholders and the category patterns
+        # (the in-context interpretation of ~1.6 million vocabularies is out of budget)
+        full = [(mn, mac, regs, pre) for mn in subsets(MNEMONICS, 3, 1) for mac in subsets(MACROS, 2)
+                for regs in subsets(REGISTERS, 3) for pre in subsets(PREDEFINED, 2)]
     seen_v = set()
     if True:
         if True:
             if True:
-                for vocab in vocabs:
+                ctxset = set(vocabs)
+                for vocab in vocabs + full:
                     if vocab in seen_v:
                         continue
                     seen_v.add(vocab)
+                    in_context = vocab in ctxset
                     mn, mac, regs, pre = vocab
                     ctr += 1
                     if ctr % n != idx:
                         continue
                     isa = make_isa(*vocab)
                     for target in ('vscode', 'sublime'):
-                        probs = examine(isa, target, vocab, generate_inproc)
+                        probs = examine(isa, target, vocab, generate_inproc, context=in_context)
                         acc.count_eval(1, 'OK' if not probs else 'PROBLEM')
                         if probs:
                             spec = {'target': target, 'vocab': [list(v) for v in vocab]}
                             finding = None
                             acc.violation([{'isa': isa, 'target': target}], spec, f'{target} {vocab}: {probs[0]}', [{'problems': probs[:5]}],
                                           finding=finding)
-                        elif ctr % 3 == 0:
+                        elif in_context and ctr % 3 == 0:
                             # an upgrade: the previous vocabulary was generated into the same directory before this one
-                            prev = vocabs[vocabs.index(vocab) - 1]
+                            prev = vocabs[(ctr - 2) % len(vocabs)]
                             probs = examine(isa, target, vocab, generate_inproc, before=make_isa(*prev))
                             acc.count_eval(1, 'OK' if not probs else 'PROBLEM')
                             if probs:
